@@ -32,10 +32,7 @@ Proof. exact C14_refuted_proof. Qed.
 Print Assumptions C14_refuted.
 
 Theorem C14_not_full : ~ C14_full_statement.
-Proof.
-  intro H. destruct C14_refuted as (c & ring & cl & i & j & a & b & Hok & Hij & Hi & Hj & S1 & S2 & E & _).
-  exact (H c ring cl Hok i j a b Hij Hi Hj S1 S2 E).
-Qed.
+Proof. exact C14_not_full_proof. Qed.
 Print Assumptions C14_not_full.
 
 (* outside the domain: all index kinds, chunking modes, granularities, wait modes, pool sizes, every ring index
